@@ -17,7 +17,7 @@ ME = 510998.95069          # Optics/Maps.v m_e ; asserted against cheetah on eve
 C_LIGHT = 299792458.0
 PREAMBLE = """From Coq Require Import Reals Lra.
 From Interval Require Import Tactic.
-From Cheetah Require Import Base.Mat Optics.Maps Optics.Off Optics.OffProofs Optics.OffElems Optics.OffRefute Optics.OffClasses Optics.OffMain Optics.OffCorr.
+From Cheetah Require Import Base.Mat Optics.Maps Optics.Off Optics.OffProofs Optics.OffElems Optics.OffRefute Optics.OffClasses Optics.OffMain Optics.OffCorr Optics.UndFixed.
 Open Scope R_scope.
 Ltac me := unfold m_e; lra.
 Ltac entries := unfold m7close, v7close, blockdiag, row, drift_r56_closed, T566_closed, ig_closed, m_e; cbn [c0 c1 c2 c3 c4 c5 c6]; repeat split; interval with (i_prec 80).
@@ -31,6 +31,16 @@ STRENGTH = {"Quadrupole": "k1", "Dipole": "angle", "RBend": "angle", "Solenoid":
 F1 = "Cavity(voltage=0).track adds T566*delta^2 (T566 = 1.5 L igamma2/beta^3) to tau / mu[4]: not a drift [F1]"
 F2 = "Cavity(voltage=0).track(ParameterBeam) overwrites cov[4,4], cov[4,5], cov[5,4] with T566*cov55^2 (even at length 0) [F2]"
 F3 = "Undulator R56 = +L/gamma^2 but a drift has -L/(beta^2 gamma^2): tau / mu[4] / cov[4,:] differ from Drift [F3]"
+F3_BACK = "Undulator differs from Drift of the same length in tau / mu[4] / cov[4,:] (R56): finding F3, listed as fixed, is back"
+# finding F3 (Undulator R56): while it is listed `known` for C09 the faithful model of the Undulator row is und_map (the code
+# before the repair, refuted: C09_undulator_off_refuted) and a longitudinal deviation from the drift is the known finding; once
+# it is flipped to `fixed` the faithful model is und_map_fixed (= drift_map, C09_off_is_drift_like_fixed has no exclusion)
+# and the same deviation is a VIOLATION.  Set in main() from known_findings.json.
+STATE = {"f3_known": True}
+
+
+def f3_known():
+    return any(f["id"] == "F3" and f.get("status") == "known" for f in common.load_known_findings(PID))
 F8A = "Bmad-X Dipole/RBend with angle=0 returns NaN (g = 0 => 0/0 in _bmadx_body) [F8]"
 F8B = "Bmad-X Quadrupole with length=0 returns NaN (k1 = b1/(length*rel_p) = 0/0) [F8]"
 F8C = "Bmad-X Dipole/RBend with length=0 returns NaN (g = angle/length) [F8]"
@@ -282,7 +292,7 @@ def classify(spec, beam, res):
         if only(tau_obs | f2):
             return "known", (F2 if any(d[0] == "cov" for d in diffs) else F1), diffs
     if cls == "Undulator" and only(tau_obs | cov4):
-        return "known", F3, diffs
+        return ("known", F3, diffs) if STATE["f3_known"] else ("violation", F3_BACK, diffs)
     return "violation", "differs from Drift of the same length and tracking method", diffs
 
 
@@ -407,8 +417,10 @@ def V7lit(v):
     return "(mk7 " + " ".join(dyadic(float(x)) for x in v) + ")"
 
 
-def tm_goal(spec, energy, tm):
-    """Lemma statement + tactic: all 49 entries of the real element's transfer_map(E) at zero strength agree with Optics/Maps.v"""
+def tm_goal(spec, energy, tm, und_fixed=None):
+    """Lemma statement + tactic: all 49 entries of the real element's transfer_map(E) at zero strength agree with Optics/Maps.v.
+    und_fixed selects the Undulator transcription (default: by the status of F3, see STATE)"""
+    und_fixed = (not STATE["f3_known"]) if und_fixed is None else und_fixed
     cls, kw = spec["cls"], spec["kw"]
     L = float(kw["length"])
     d = dyadic
@@ -442,7 +454,10 @@ def tm_goal(spec, energy, tm):
         eps = "0"
         step = f"rewrite Rplus_0_l, {lem}."
     elif cls == "Undulator":
-        model = f"(und_map {d(L)} {E})"          # as coded (R56 = + L igamma2): the refuted map
+        if und_fixed:                            # the repaired code (R56 = -L/beta^2 igamma2): literally the drift map
+            model = f"(und_map_fixed {d(L)} {E})"
+            return (f"m7close (0 + {tol}) {model} {obs}", "rewrite Rplus_0_l, und_map_fixed_is_drift, drift_map_closed by me. entries.")
+        model = f"(und_map {d(L)} {E})"          # the code before the repair (R56 = + L igamma2): the refuted map
         return (f"m7close (0 + {tol}) {model} {obs}", "rewrite Rplus_0_l, und_map_closed by me. entries.")
     else:
         raise ValueError(cls)
@@ -502,8 +517,34 @@ def planted_mutant_selftest(run, cases):
 
 
 # ---------------------------------------------------------------- known findings
+def replay_fixed(run, f):
+    """stored input of a finding listed as fixed: it must pass now; failing again is a regression (VIOLATION with that input)"""
+    r = f.get("replay") or {}
+    run.cov.setdefault("fixed_findings_replayed", []).append(f["id"])
+    try:
+        if r.get("kind") == "finite_at_nonzero_strength":
+            bad = not finite(beam_arrays(realgen.build(r["spec"]).track(realgen.build_beam(r["beam"]))))
+            what, diffs = "non-finite output", []
+        else:
+            v, what, diffs = classify(r["spec"], r["beam"], run_case(r["spec"], r["beam"]))
+            bad = v != "ok"
+    except Exception as ex:
+        bad, what, diffs = True, f"exception: {type(ex).__name__}: {ex}", []
+    if bad:
+        run.violation({"kind": "regression", "finding": f["id"], "spec": r.get("spec"), "beam": r.get("beam"), "diffs": diffs[:6],
+                       "what": f"fixed finding {f['id']} fails again on its stored input ({what}): {f['what']}",
+                       "relation": "Element(strength=0).track(b) == Drift(L, same method).track(b)"})
+    return bad
+
+
 def replay_known(run):
+    """known + still failing -> KNOWN-FINDING; known + passing -> note; fixed + failing again -> VIOLATION.  Returns regressed ids."""
+    regressed = set()
     for f in common.load_known_findings(PID):
+        if f.get("status") == "fixed" and f.get("replay"):
+            if f["id"] not in regressed and replay_fixed(run, f):
+                regressed.add(f["id"])
+            continue
         if f.get("status") != "known":
             continue
         r = f["replay"]
@@ -525,6 +566,7 @@ def replay_known(run):
         else:
             run.violation({"kind": "oracle", "spec": r["spec"], "beam": r["beam"], "what": f"stored input of known finding {f['id']} now fails differently: {what}",
                            "relation": "Element(strength=0).track(b) == Drift(L, same method).track(b)"})
+    return regressed
 
 
 # ---------------------------------------------------------------- main
@@ -538,6 +580,7 @@ def main(tier, replay=None):
                        "1.5 MeV..50 GeV x random tilt/misalignment/edge angles/fringe/gap/phase/frequency/num_steps: Element.track(b) vs Drift(L, same method).track(b) "
                        "on all coordinates, energy, charges; plus continuity sequences strength=+-10^-k. Non-trivial = length>0 or a non-default non-strength parameter; "
                        "distinct by full case content.")
+    STATE["f3_known"] = f3_known()
     if replay:
         return do_replay(run, replay)
     if abs(float(electron_mass_eV) - ME) > 0:
@@ -545,6 +588,8 @@ def main(tier, replay=None):
     proof_ok = run.proof_stage()
     if not proof_ok:
         run.notes.append(run.proof_problem)
+    run.cov["undulator_model"] = ("und_map (code before the repair of F3; excluded from the family theorem, C09_undulator_off_refuted)" if STATE["f3_known"]
+                                  else "und_map_fixed (code after the repair of F3; = drift_map, C09_off_is_drift_like_fixed)")
 
     reps = 10 if thorough else 3
     plan = []
@@ -581,6 +626,8 @@ def main(tier, replay=None):
             run.count("known_finding_cases")
         elif v == "violation":
             new.append({"kind": "oracle", "spec": spec, "beam": beam, "what": what, "diffs": diffs[:6]})
+            if what == F3_BACK:
+                new[-1]["finding"] = "F3"
         if L == 0.0 and finite(res["out"]) and v == "ok":
             # zero length and zero strength = identity
             key = "particles" if bt == "particle" else "mu"
@@ -601,14 +648,34 @@ def main(tier, replay=None):
         corr_fail = [(0, "coqc failed outside the goals", str(ex)[-400:])]
     # classify correspondence failures: the refuted Undulator map / Cavity extras are models of known defects
     corr_new = []
+    und_idx = [idx for idx, what, err in corr_fail if idx < len(corr_cases) and corr_cases[idx][0]["cls"] == "Undulator" and what == "transfer_map"]
+    und_other_ok = False
+    if und_idx:
+        # the Undulator disagrees with the transcription selected by the status of F3: evaluate the OTHER transcription
+        g2 = []
+        for idx in und_idx:
+            spec, energy, _ = corr_cases[idx]
+            tm = realgen.build(spec).transfer_map(torch.tensor(energy, dtype=torch.float64))
+            g2.append(tm_goal(spec, energy, tm.tolist(), und_fixed=STATE["f3_known"]) if tm.dim() == 2 and bool(torch.isfinite(tm).all()) else ("False", "idtac."))
+        try:
+            f2, _ = common.run_real_goals(PID, "corr_und_other", PREAMBLE, g2, shard=6, jobs=16, timeout=900)
+            und_other_ok = not f2
+        except RuntimeError:
+            und_other_ok = False
     for idx, what, err in corr_fail:
-        spec = corr_cases[idx][0] if idx < len(corr_cases) else None
-        if spec and spec["cls"] == "Undulator" and what == "transfer_map":
-            run.cov["known_findings_not_reproduced"].append("F3:Undulator transfer_map no longer equals the modelled (defective) map")
-            # decided by the oracle: if it now equals the drift nothing is reported, otherwise the oracle has a failing input
+        if idx in und_idx and what == "transfer_map" and und_other_ok:
+            if STATE["f3_known"]:
+                msg = "F3:Undulator.transfer_map equals und_map_fixed (= drift_map), not the modelled defective map: the status of F3 is stale (flip it to fixed)"
+                if msg not in run.cov["known_findings_not_reproduced"]:
+                    run.cov["known_findings_not_reproduced"].append(msg)
+            else:
+                # listed fixed but the code computes the old map again: the oracle (classify -> violation) and the replay of the
+                # stored F3 input report it with a concrete input
+                run.notes.append("F3 is listed fixed but Undulator.transfer_map equals und_map (R56 = +L igamma2): the repaired defect is back")
             continue
         corr_new.append((idx, what, err))
-    replay_known(run)
+    regressed = replay_known(run)
+    new = [it for it in new if not (it.get("finding") in regressed)]
     run.cov["tested_only"] = ["Bmad-X Quadrupole(k1=0) vs Bmad-X Drift: third-order bound L|px/P|u on x,y and L u^2 on z (tolerance justified in coord_tol, not proved in Coq)",
                               "TransverseDeflectingCavity(voltage=0) vs Bmad-X Drift (proof belongs to C07)",
                               "ParameterBeam covariance closeness (the Coq theorem covers the map and particles; cov checked numerically with the derived bound)",
